@@ -127,6 +127,18 @@ def ensure_table():
     return path
 
 
+def ensure_cycles():
+    """files that include themselves / each other (fixed names in the temp directory, re-created on demand): the assembly ends with an error"""
+    import tempfile
+    d = tempfile.gettempdir()
+    me = os.path.join(d, "vfC15-self.s")
+    a, b = os.path.join(d, "vfC15-a.s"), os.path.join(d, "vfC15-b.s")
+    open(me, "w").write(f"nop\n.include '{me}'\nrts\n")
+    open(a, "w").write(f"nop\n.include '{b}'\n")
+    open(b, "w").write(f"clc\n.include '{a}'\n")
+    return [f"*=0x008000\n.include '{me}'\n", f"*=0x008000\n.include '{a}'\nrts\n", f"*=0x008000\n{{\n.include '{b}'\n}}\n"]
+
+
 def deep(tbl):
     """deeply nested scopes (40-64 levels of blocks / named scopes) around statements that look something up through the whole chain: a table, a symbol,
     a macro -- the work per lookup grows with the depth, not exponentially in it"""
@@ -144,7 +156,7 @@ def deep(tbl):
 def run(tier, seed):
     rng = random.Random(seed)
     seqs = gen(tier, rng)
-    seqs += deep(ensure_table())
+    seqs += deep(ensure_table()) + ensure_cycles()
     old = os.getcwd()
     os.chdir("/tmp")
     try:
@@ -164,12 +176,13 @@ def run(tier, seed):
     return {"evaluations": len(seqs), "distinct_nontrivial": len(set(seqs)),
             "rule": "token-alphabet sequences (78 snippets covering every token kind, unterminated strings/comments, NUL, junk): all sequences of length <= 2 "
                     "(thorough: plus 12% of length 3) with space/newline separators, seeded sequences of 3-12 snippets, every truncation / line deletion / line "
-                    "duplication / single-character corruption of 5 valid programs, guarded and unguarded (single / double / mutual / code-block / loop) self-applying macros, table / symbol / macro lookups from 24-64 nested scopes, programs whose expansion-time symbol reads sit 2-6 scopes below the definitions (or read undefined names from there), byte soup; each under a 4 s watchdog; distinct = distinct sources",
+                    "duplication / single-character corruption of 5 valid programs, guarded and unguarded (single / double / mutual / code-block / loop) self-applying macros, table / symbol / macro lookups from 24-64 nested scopes, files that include themselves or each other, programs whose expansion-time symbol reads sit 2-6 scopes below the definitions (or read undefined names from there), byte soup; each under a 4 s watchdog; distinct = distinct sources",
             "samples": [seqs[5], seqs[len(seqs) // 2][:80]], "failures": failures, "outcomes": {k: sum(1 for _, r in results if r.split(':')[0] == k) for k in ("ok", "error", "exception", "TIMEOUT")}}
 
 
 def replay(payload):
     ensure_table()
+    ensure_cycles()
     r = run_one(payload["src"], limit=6)
     return {"failed": r == "TIMEOUT", "observed": r}
 
